@@ -76,6 +76,12 @@ def scenarios(tier):
             if _feasible(evs) and (tier != 'quick' or all(e[0] == 'w' for e in evs)):
                 out.append(Scenario('io', n=2, evs=[list(e) for e in evs], drain='each', E=1 if tier == 'quick' else 2,
                                     tick=0.13, beh='slow'))
+    # a worker that leaves more than a few read buffers behind (6000 / 20000 / 70000 bytes, the last one more than a pipe
+    # holds at once) and exits: whoever reaps it first, everything it wrote arrives
+    for size in (6000, 20000):
+        for drain in ('each', 'end'):
+            out.append(Scenario('io', n=2, evs=[['w', 0, 'stdout', size], ['x', 0]], drain=drain, E=1))
+            out.append(Scenario('io', n=2, evs=[['w', 0, 'stderr', size], ['w', 0, 'stdout', 1], ['x', 0]], drain=drain, E=1))
     # the stdout stream of watcher a is a FileStream given by file name: a `set stdout_stream.filename` request builds a new
     # stream object and closes the old one while the worker keeps running; what it writes afterwards must reach the new file
     menu3 = [e for e in worker_menu(tier, 1) if e[0] == 'w' and e[2] == 'stdout']
